@@ -3,12 +3,13 @@ CONSTANTS
   Plat = "posix"
   MaxComps = 3
   MaxEntries = 1
-  MCForms = {"rel", "abs", "dotrel", "trail"}
+  MCForms = {"rel", "abs"}
 INIT Init
 NEXT Next
 CHECK_DEADLOCK FALSE
 INVARIANTS
   TypeOK
+  UnreadTouchesNothing
   PredictionMatchesMachine
   AbortCharacterised
   Contained
